@@ -1,5 +1,6 @@
 import AndaVerif.Proofs.SchemaSound
 import AndaVerif.Proofs.SchemaDeclared
+import AndaVerif.Proofs.SchemaUpgrade
 /-
 Property C13 — "What validation accepts, storage returns unchanged; nothing invalid gets in".
 Theorems over the model `AndaVerif.Schema` (`Model/Schema.lean`), for every float model `fm`
@@ -212,5 +213,134 @@ theorem untyped_vector_outgrows_budget :
     validateWith fm0 b (.array []) (.array [.vector [1, 2, 3]]) = true ∧
       validateWith fm0 b (.array []) (generic fm0 (.array [.vector [1, 2, 3]])) = false := by
   decide
+
+/-! ## Documents and schema upgrades -/
+
+/-- **Document round trip** (all fields, by index): a document whose every entry is declared by the
+schema, canonical for its field type, well-formed and in budget, and which has all required fields,
+is read back from its stored form as exactly itself. -/
+theorem document_roundtrip (fm : FloatModel) (hfm : fm.Lawful) (s : Schema)
+    (hd : s.fields.Pairwise (fun a b => a.idx ≠ b.idx)) (d : Doc)
+    (hok : ∀ e ∈ d, FieldOk fm s e)
+    (hreq : ∀ f ∈ s.fields, f.required = true → ∃ e ∈ d, e.1 = f.idx) :
+    ∃ r, Doc.storeDecode fm d = some r ∧ tryFromDoc fm s r = some d :=
+  tryFromDoc_storeDecode fm hfm s hd d hok hreq
+
+/-- the schemas of the examples: `{_id, a: Option<I64>, n: Text}` and its successor without `a`,
+with a new optional `z` -/
+def s1 : Schema :=
+  { fields := [idEntry, ⟨"a", .option .i64, false, 1⟩, ⟨"n", .text, false, 2⟩], version := 1, nextIdx := 3 }
+def s2new : Schema :=
+  { fields := [idEntry, ⟨"n", .text, false, 1⟩, ⟨"z", .option .u64, false, 2⟩], version := 2, nextIdx := 3 }
+
+example : (match tryFromDoc fm0 s1 [(0, .u64 7), (1, .u64 5), (2, .text "x")] with
+    | some [(0, .u64 7), (1, .i64 5), (2, .text "x")] => true
+    | _ => false) = true := by decide
+
+/-- **Index allocation of `upgrade_with`.** In an accepted upgrade every field either keeps the
+index of the same-named old field, or is new and gets an index at or above the old allocation
+watermark (so above every index the lineage ever used); the watermark never decreases; new fields
+are optional. -/
+theorem upgrade_index_stable (new old s' : Schema) (h : Schema.upgradeWith new old = some s') :
+    old.allocatedIdxEnd ≤ s'.allocatedIdxEnd ∧ old.version < s'.version ∧
+      (∀ f ∈ s'.fields,
+        (∃ g ∈ old.fields, g.name = f.name ∧ f.idx = g.idx) ∨
+          (old.byName f.name = none ∧ old.allocatedIdxEnd ≤ f.idx ∧ f.idx < s'.allocatedIdxEnd ∧
+            f.required = false)) := by
+  obtain ⟨h1, _, h3, _, h5, _⟩ := upgradeWith_spec new old s' h
+  refine ⟨Nat.le_trans h1 (watermark_le s'), h3, ?_⟩
+  intro f hf
+  rcases h5 f hf with ⟨g, hg, hi⟩ | ⟨hn, hlo, hhi⟩
+  · obtain ⟨hm, hname⟩ := byName_some old _ g hg
+    exact .inl ⟨g, hm, hname, hi⟩
+  · exact .inr ⟨hn, hlo, Nat.lt_of_lt_of_le hhi (watermark_le s'), upgrade_fresh_optional new old s' h f hf hn⟩
+
+example : (match Schema.upgradeWith s2new s1 with
+    | some s => s.fields.map (fun f => (f.name, f.idx)) == [("_id", 0), ("n", 2), ("z", 3)] && s.nextIdx == 4
+    | none => false) = true := by decide
+
+/-- **No index is ever re-bound.** Along every chain of accepted upgrades (add, remove, re-add, in
+any number and order) an index that some field had in an earlier schema is, in every later schema,
+either undeclared or still bound to a field of the same name (inherited step by step). A removed
+and re-added name therefore gets a fresh index, and values stored under the old one can never
+appear under another field. -/
+theorem upgrade_chain_no_rebinding {s t : Schema} (hc : Chain s t) (hs : SchemaWF s) :
+    SchemaWF t ∧ ∀ f ∈ s.fields, ∀ g ∈ t.fields, f.idx = g.idx → f.name = g.name := by
+  obtain ⟨hwf, _, hback⟩ := chain_inv hc hs
+  refine ⟨hwf, ?_⟩
+  intro f hf g hg hidx
+  obtain ⟨f', hf', hn, hi⟩ := hback g hg (by rw [← hidx]; exact idx_lt_end s f hf)
+  have : f' = f := by
+    have h1 := find_idx_of_mem s.fields hs.idxs f' hf'
+    have h2 := find_idx_of_mem s.fields hs.idxs f hf
+    rw [hi, ← hidx, h2] at h1
+    exact (Option.some.inj h1).symm
+  rw [← this, hn]
+
+/-- The full statement for one upgrade step: any document valid under the old schema reads under
+the upgraded schema, every surviving field unchanged up to entries of nested keys the new type no
+longer declares (`prune`), every removed field absent. -/
+def upgrade_preserves_full : Prop :=
+  ∀ (fm : FloatModel) (new old s' : Schema) (d : Doc), fm.Lawful → SchemaWF old →
+    new.fields.Pairwise (fun a b => a.name ≠ b.name) →
+    Schema.upgradeWith new old = some s' →
+    (∀ e ∈ d, FieldOk fm old e) →
+    (∀ f ∈ old.fields, f.required = true → ∃ e ∈ d, e.1 = f.idx) →
+    ∃ r, Doc.storeDecode fm d = some r ∧
+      tryFromDoc fm s' r = some ((d.filter (fun e => s'.idxs.contains e.1)).map (fun e =>
+        match s'.byIdx e.1 with
+        | some f => (e.1, prune f.ty e.2)
+        | none => e))
+
+/-- Proved part: upgrades that leave the types of the surviving fields as they are (add / remove /
+re-add of top-level fields). The nested-struct evolution (`compatible` with gained optional keys and
+lost keys) is covered by the correspondence and the oracle, not by a theorem yet. -/
+theorem upgrade_preserves_partial (fm : FloatModel) (hfm : fm.Lawful) (new old s' : Schema)
+    (hold : SchemaWF old) (hnew : new.fields.Pairwise (fun a b => a.name ≠ b.name))
+    (hup : Schema.upgradeWith new old = some s')
+    (hty : ∀ f ∈ s'.fields, ∀ g, old.byName f.name = some g → f.ty = g.ty)
+    (d : Doc) (hok : ∀ e ∈ d, FieldOk fm old e)
+    (hreq : ∀ f ∈ old.fields, f.required = true → ∃ e ∈ d, e.1 = f.idx) :
+    ∃ r, Doc.storeDecode fm d = some r ∧
+      tryFromDoc fm s' r = some (d.filter (fun e => s'.idxs.contains e.1)) :=
+  upgrade_preserves_same_types fm hfm new old s' hold hnew hup hty d hok hreq
+
+example : (match Schema.upgradeWith s2new s1 with
+    | some s => (match tryFromDoc fm0 s [(0, .u64 7), (1, .u64 5), (2, .text "x")] with
+      | some [(0, .u64 7), (2, .text "x")] => true
+      | _ => false)
+    | none => false) = true := by decide
+
+/-- The full statement over chains: a document valid under `s₀` stays readable under every schema
+reached from `s₀` by accepted upgrades. -/
+def upgrade_chain_preserves_full : Prop :=
+  ∀ (fm : FloatModel) (s₀ t : Schema) (d r : Doc), fm.Lawful → SchemaWF s₀ → Chain s₀ t →
+    Doc.storeDecode fm d = some r → tryFromDoc fm s₀ r = some d → (tryFromDoc fm t r).isSome
+
+def c0 : Schema :=
+  { fields := [idEntry, ⟨"p", .map [(.text "x", .i64), (.text "y", .text)], false, 1⟩], version := 1, nextIdx := 2 }
+def c1new : Schema :=
+  { fields := [idEntry, ⟨"p", .map [(.text "x", .i64)], false, 1⟩], version := 2, nextIdx := 2 }
+def c2new : Schema :=
+  { fields := [idEntry, ⟨"p", .map [(.text "x", .i64), (.text "y", .option .bytes)], false, 1⟩], version := 3, nextIdx := 2 }
+def cdoc : Doc := [(0, .u64 1), (1, .map [(.text "x", .i64 1), (.text "y", .text "old")])]
+/-- its stored form, decoded without a schema -/
+def cread : Doc := [(0, .u64 1), (1, .map [(.text "x", .u64 1), (.text "y", .text "old")])]
+
+/-- It is false in the code (finding F3): a *nested* key may be removed and later declared again
+with another type — both steps are permitted (`is_compatible_upgrade_of`: a lost key, a gained
+optional key) — but stored documents still carry the entry of the removed key (`prune_undeclared`
+only hides it while it is undeclared), which is then validated against the new type. Top-level
+fields are protected by never re-using an index (`upgrade_chain_no_rebinding`); nested keys are
+names and have no such protection. -/
+theorem upgrade_chain_preserves_counterexample : ¬ upgrade_chain_preserves_full := by
+  intro h
+  have hwf : SchemaWF c0 := ⟨by decide, by decide⟩
+  have h1 : Schema.upgradeWith c1new c0 = some { c1new with nextIdx := 2 } := by rfl
+  have h2 : Schema.upgradeWith c2new { c1new with nextIdx := 2 } = some { c2new with nextIdx := 2 } := by rfl
+  have hc : Chain c0 { c2new with nextIdx := 2 } :=
+    .step (.step (.refl c0) (by decide) h1) (by decide) h2
+  have := h fm0 c0 _ cdoc cread fm0_lawful hwf hc (by rfl) (by rfl)
+  revert this; decide
 
 end AndaVerif.C13
